@@ -95,6 +95,58 @@ func withAny(fn func() (int, string, error)) (any, error) {
 	a, _, err := fn()
 	return a, err
 }
+
+// curried calls: the func literal that is finally called is reached through (mutually) recursive constructors
+func attempt(n int) func() error {
+	if n > 0 {
+		return attempt(n - 1)
+	}
+	return func() error { return E{Code: 7} }
+}
+
+func retry() error { return attempt(3)() }
+
+func onEven(n int) func() error {
+	if n == 0 {
+		return func() error { return nil }
+	}
+	return onOdd(n - 1)
+}
+
+func onOdd(n int) func() error {
+	if n == 0 {
+		return func() error { return E{Code: 8} }
+	}
+	return onEven(n - 1)
+}
+
+func parity() (any, error) {
+	err := onEven(4)()
+	return 1, err
+}
+
+// one generic struct, two instances in one function, the same field assigned through selectors on both
+type Cell[X any] struct {
+	Val X
+	N   int
+}
+
+func label() string {
+	var a Cell[string]
+	var b Cell[int]
+	a.Val = "total"
+	b.Val = 3
+	return a.Val
+}
+
+func count() (int, error) {
+	a := Cell[string]{}
+	b := &Cell[int]{}
+	b.Val = 4
+	a.Val = "x"
+	b.N, a.N = 5, 6
+	return b.Val, nil
+}
 `
 
 var c14Sigs = map[string]string{
